@@ -454,6 +454,16 @@ def _interp_combinator(self, meth, args, depth):
     ap = lambda f, a: self._apply(f, a, depth)
     if meth == "unwrap_or":
         return v if has else args[1]
+    if meth == "filter" and x.vname in ("Some", "None"):
+        return x if has and bool(ap(args[1], [Ref([v])])) else _none()
+    if meth in ("is_some_and", "is_ok_and"):
+        return has and bool(ap(args[1], [v]))
+    if meth == "is_none_or":
+        return (not has) or bool(ap(args[1], [v]))
+    if meth == "map_or":
+        return ap(args[2], [v]) if has else args[1]
+    if meth == "map_or_else":
+        return ap(args[2], [v]) if has else ap(args[1], [] if x.vname == "None" else [x.fields[0]])
     if meth == "flatten" and x.vname in ("Some", "None"):
         return (v if isinstance(v, Enum) else _some(v)) if has else x
     if meth == "unwrap_or_else":
